@@ -6,6 +6,7 @@
 package main
 
 import (
+	"encoding/json"
 	"fmt"
 	"os"
 	"strconv"
@@ -23,6 +24,13 @@ func main() {
 	case "list":
 		for _, id := range run.IDs() {
 			fmt.Println(id, run.Lookup(id).Title)
+		}
+	case "plan": // vcheck plan <Cxx> <tier> <seed>: prints the job list (used to build replay files by hand)
+		c := run.Lookup(os.Args[2])
+		seed, _ := strconv.ParseInt(os.Args[4], 10, 64)
+		for i, j := range c.Plan(os.Args[3], seed) {
+			b, _ := json.Marshal(j)
+			fmt.Printf("%d %s\n", i, b)
 		}
 	case "worker":
 		if len(os.Args) != 8 {
